@@ -365,6 +365,25 @@ func isoFamilyCases(thorough bool, structural bool, visit func(c isoCase)) {
 			}})
 		}
 	}
+	// sibling names that coincide after the mapping to ISO 9660 identifiers (upper-casing, '_' for other characters):
+	// the image is refused, or it holds every one of them with its own content
+	for ci, names := range [][]string{{"sub", "SUB"}, {"a b", "a_b"}, {"data", "Data", "DATA"}, {"x.bin", "X.BIN"}} {
+		names := names
+		for _, asDirs := range []bool{true, false} {
+			asDirs := asDirs
+			visit(isoCase{desc: sprintf("colliding sibling names %v dirs=%v", names, asDirs), family: "collide", build: func(dir string) {
+				for i, n := range names {
+					if asDirs {
+						mkFileAbs(filepath.Join(dir, n, sprintf("in%d.bin", i)), int64(100+i), byte(ci*7+i), baseTime)
+						mkFileAbs(filepath.Join(dir, n, "same.bin"), int64(2049+i), byte(ci*7+i+1), baseTime)
+					} else {
+						mkFileAbs(filepath.Join(dir, n), int64(300+i*2048), byte(ci*7+i), baseTime)
+					}
+				}
+				mkFileAbs(filepath.Join(dir, "zz_after", "f.bin"), 10, 9, baseTime)
+			}})
+		}
+	}
 	// symbolic links the operator placed in the tree are followed, as everywhere in the server: a link to a file
 	// is a file with the target's size and bytes, a link to a directory is a directory with the target's content
 	for _, abs := range []bool{false, true} {
@@ -526,7 +545,7 @@ func runISOProperty(t *testing.T, prop string) {
 			// creation failed with an error: the properties quantify over trees for which creation succeeds,
 			// but for plain small trees a failure is itself wrong
 			r.Outcome("create-error:" + c.family)
-			if c.family != "namelen" && c.family != "names" && c.family != "rootname" {
+			if c.family != "namelen" && c.family != "names" && c.family != "rootname" && c.family != "collide" {
 				r.Violation(prop+":create-failed:"+c.family, c.desc+": image creation/reading failed: "+res.err.Error(), rep)
 			}
 			return
